@@ -7,6 +7,7 @@ package vchan
 
 import (
 	"reflect"
+	"unsafe"
 
 	"verif/shim/vsched"
 )
@@ -16,6 +17,7 @@ type box struct {
 	vals      []any
 	receivers int
 	closed    bool
+	fwd, back byte // addresses used for the happens-before annotations (send -> receive, receiver parked -> send completes)
 }
 
 // per-execution table (no Go map: see vsched package comment)
@@ -70,6 +72,8 @@ func Send[T any](c chan<- T, v T) {
 		panic("send on closed channel")
 	}
 	b.receivers--
+	vsched.HBAcquire(unsafe.Pointer(&b.back))
+	vsched.HBRelease(unsafe.Pointer(&b.fwd))
 	b.vals = append(b.vals, v)
 }
 
@@ -87,6 +91,7 @@ func recv[T any](c <-chan T) (T, bool) {
 	}
 	b := boxOf(c)
 	b.receivers++
+	vsched.HBRelease(unsafe.Pointer(&b.back))
 	var realV T
 	realOK, gotReal := false, false
 	vsched.PointOp(e, t, vsched.Op{Kind: vsched.OpRecv, Obj: c, Enabled: func() bool {
@@ -104,14 +109,17 @@ func recv[T any](c <-chan T) (T, bool) {
 	if len(b.vals) > 0 {
 		v := b.vals[0].(T)
 		b.vals = b.vals[1:]
+		vsched.HBAcquire(unsafe.Pointer(&b.fwd))
 		return v, true
 	}
 	b.receivers--
 	if gotReal {
 		return realV, realOK
 	}
-	var zero T
-	return zero, false
+	// closed through Close below: the real channel is closed too, so the real receive returns at
+	// once and gives the race detector the close -> receive edge
+	v, ok := <-c
+	return v, ok
 }
 
 func Recv[T any](c <-chan T) T { v, _ := recv(c); return v }
